@@ -12,6 +12,10 @@ from . import models, solve, speclib, contract
 from .ops import Unsupported
 
 
+class MissingWitness(Exception):
+    """a postcondition names a local of the function as its witness, but this path never assigned it"""
+
+
 class Verifier:
     def __init__(self, repo=None):
         self.repo = repo or os.environ.get('REPO', '/repo')
@@ -50,6 +54,8 @@ class Verifier:
                 return gs[-1][name]         # ghost of a callee, at a call site of its contract
             if default is not None:
                 return self.interp.last_top_env.get(name, default)
+            if name not in self.interp.last_top_env:
+                raise MissingWitness(name)
             return self.interp.last_top_env[name]
         self.interp.ghost_frames = []
 
